@@ -1156,9 +1156,19 @@ func (cfg *Config) glob(base, pat string) ([]string, error) {
 			}
 			matches = matches[:0]
 			var newMatches []string // to reuse its capacity
+			// Like bash, "**" matches symlinks to directories, but does not descend into them.
+			// They only match if no later path element needs to look inside them.
+			symlinks := make(map[string]bool)
+			lookInside := slices.ContainsFunc(parts[i+1:], func(part string) bool { return part != "" })
 			for len(stack) > 0 {
 				dir := stack[len(stack)-1]
 				stack = stack[:len(stack)-1]
+				if symlinks[dir] {
+					if !lookInside {
+						matches = append(matches, dir)
+					}
+					continue
+				}
 				matches = append(matches, dir)
 
 				// If dir is not a directory, we keep the stack as-is and continue.
@@ -1167,7 +1177,7 @@ func (cfg *Config) glob(base, pat string) ([]string, error) {
 				if cfg.DotGlob {
 					rx = rxGlobStarDotGlob.MatchString
 				}
-				newMatches, _ = cfg.globDir(base, dir, rx, wantDir, newMatches)
+				newMatches, _ = cfg.globDir(base, dir, rx, wantDir, newMatches, symlinks)
 				for _, match := range slices.Backward(newMatches) {
 					stack = append(stack, match)
 				}
@@ -1198,7 +1208,7 @@ func (cfg *Config) glob(base, pat string) ([]string, error) {
 		}
 		var newMatches []string
 		for _, dir := range matches {
-			newMatches, err = cfg.globDir(base, dir, matcher, wantDir, newMatches)
+			newMatches, err = cfg.globDir(base, dir, matcher, wantDir, newMatches, nil)
 			if err != nil {
 				return nil, err
 			}
@@ -1215,7 +1225,10 @@ func (cfg *Config) glob(base, pat string) ([]string, error) {
 	return matches, nil
 }
 
-func (cfg *Config) globDir(base, dir string, matcher func(string) bool, wantDir bool, matches []string) ([]string, error) {
+// globDir appends to matches the entries of dir that satisfy matcher,
+// and which are directories if wantDir is set.
+// If symlinks is not nil, it records which of the new matches are symbolic links.
+func (cfg *Config) globDir(base, dir string, matcher func(string) bool, wantDir bool, matches []string, symlinks map[string]bool) ([]string, error) {
 	fullDir := dir
 	if !filepath.IsAbs(dir) {
 		fullDir = filepath.Join(base, dir)
@@ -1243,7 +1256,11 @@ func (cfg *Config) globDir(base, dir string, matcher func(string) bool, wantDir 
 			continue
 		}
 		if matcher(name) {
-			matches = append(matches, pathJoin2(dir, name))
+			match := pathJoin2(dir, name)
+			if symlinks != nil && info.Type()&os.ModeSymlink != 0 {
+				symlinks[match] = true
+			}
+			matches = append(matches, match)
 		}
 	}
 	return matches, nil
